@@ -32,8 +32,10 @@ func (c *HTTPResponder) AddHeader(name string, value string) {
 
 func (c *HTTPResponder) SetHeaders(headers http.Header) {
 	for key, values := range headers {
+		// Replace the field, keeping every value of a multi-valued field (e.g. Set-Cookie)
+		c.writer.Header().Del(key)
 		for _, value := range values {
-			c.SetHeader(key, value)
+			c.AddHeader(key, value)
 		}
 	}
 }
